@@ -53,7 +53,7 @@ func lists(alphabet []shareSpec, maxLen int) [][]shareSpec {
 // Run is the C01 check.
 func Run(cfg Config) (int, error) {
 	res := hx.NewResult("C01", cfg.Seed, cfg.Tier)
-	res.Rule = "eon key sets (n,t) with 1<=t<=n; sequences over {valid share of keyper i, share of keyper i for another identity, share under another eon key, repeat of an earlier share}, exhaustive for small n up to length n+2 and sampled above; every sequence is fed to a real EpochKG and to the model (shares described by their discrete logarithms). Distinct by op line."
+	res.Rule = "eon key sets (n,t) with 1<=t<=n; sequences over {valid share of keyper i, share of keyper i for another identity, share under another eon key, repeat of an earlier share}, exhaustive for small n up to length n+2 and sampled above; every sequence is fed to a real EpochKG and to the model (shares described by their discrete logarithms); then two or three identities on one EpochKG with their (valid / other-eon-key) shares interleaved at random, each judged on its own. Distinct by op line."
 	exN, maxN, samples := 3, 5, 1500
 	maxLenFor := map[int]int{1: 3, 2: 4, 3: 3}
 	if cfg.Tier == "thorough" {
@@ -243,6 +243,106 @@ func Run(cfg Config) (int, error) {
 		items = append(items, o.it)
 		if len(res.Samples) < 4 && strings.Contains(o.it.impl, "key ") && o.longer {
 			res.Sample(map[string]string{"line": o.it.line, "impl": o.it.impl})
+		}
+	}
+	// several identities on one EpochKG, their shares interleaved: each identity gets its key exactly when t
+	// distinct valid shares for it have arrived, whatever happens to the others in between
+	if len(res.Violations) == 0 {
+		nInter := 300
+		if cfg.Tier == "thorough" {
+			nInter = 12000
+		}
+		type step struct {
+			id, sender int
+			valid      bool
+		}
+		type icase struct {
+			n, t, ids int
+			steps     []step
+		}
+		cases := []icase{
+			// the smallest one: B pending while A completes
+			{3, 2, 2, []step{{1, 0, true}, {0, 0, true}, {0, 1, true}, {1, 1, true}}},
+			{3, 2, 2, []step{{0, 0, true}, {1, 2, true}, {0, 2, true}, {1, 0, true}}},
+		}
+		for i := 0; i < nInter; i++ {
+			n := 2 + r.Intn(3)
+			c := icase{n: n, t: 1 + r.Intn(n), ids: 2 + r.Intn(2)}
+			for k, l := 0, 2+r.Intn(3*n); k < l; k++ {
+				c.steps = append(c.steps, step{r.Intn(c.ids), r.Intn(n), !r.Chance(15)})
+			}
+			cases = append(cases, c)
+		}
+		idOf := func(i int) identitypreimage.IdentityPreimage {
+			return identitypreimage.IdentityPreimage([]byte(fmt.Sprintf("verif-interleaved-%d", i)))
+		}
+		fails := make([]string, len(cases))
+		var wg2 sync.WaitGroup
+		next2 := int64(-1)
+		for w := 0; w < runtime.NumCPU(); w++ {
+			wg2.Add(1)
+			go func() {
+				defer wg2.Done()
+				for {
+					ci := int(atomic.AddInt64(&next2, 1))
+					if ci >= len(cases) {
+						return
+					}
+					c := cases[ci]
+					mu.Lock()
+					ks, ks2 := getSet(c.n, c.t)
+					mu.Unlock()
+					kg := epochkg.NewEpochKG(ks.Results[0])
+					valid := make([]map[int]bool, c.ids)
+					for i := range valid {
+						valid[i] = map[int]bool{}
+					}
+					text := []string{}
+					func() {
+						defer func() {
+							if rec := recover(); rec != nil {
+								fails[ci] = fmt.Sprintf("EpochKG panicked: %v", rec)
+							}
+						}()
+						for _, st := range c.steps {
+							id := idOf(st.id)
+							sh := ks.Share(st.sender, id.Bytes())
+							if !st.valid {
+								sh = ks2.Share(st.sender, id.Bytes())
+							} else {
+								valid[st.id][st.sender] = true
+							}
+							text = append(text, fmt.Sprintf("id%d<-keyper%d(valid=%v)", st.id, st.sender, st.valid))
+							_ = kg.HandleEpochSecretKeyShare(&epochkg.EpochSecretKeyShare{Eon: ks.Eon, IdentityPreimage: id, Sender: uint64(st.sender), Share: sh})
+						}
+					}()
+					if fails[ci] != "" {
+						continue
+					}
+					for i := 0; i < c.ids; i++ {
+						id := idOf(i)
+						key, have := kg.SecretKeys[id.Hex()]
+						want := len(valid[i]) >= c.t
+						if have != want {
+							fails[ci] = fmt.Sprintf("n=%d t=%d, shares %s: identity %d has key=%v with %d distinct valid senders", c.n, c.t, strings.Join(text, " "), i, have, len(valid[i]))
+							break
+						}
+						if have && !bytes.Equal(key.Marshal(), (*shcrypto.EpochSecretKey)(eonkeys.Point(ks.Secret(), id.Bytes())).Marshal()) {
+							fails[ci] = fmt.Sprintf("n=%d t=%d, shares %s: the key of identity %d is not its epoch secret key", c.n, c.t, strings.Join(text, " "), i)
+							break
+						}
+					}
+				}
+			}()
+		}
+		wg2.Wait()
+		for ci, f := range fails {
+			res.Evaluations++
+			res.Count(fmt.Sprintf("interleaved-identities:%d", cases[ci].ids))
+			if f != "" {
+				violate("spec", "key-iff-threshold", "several identities on one EpochKG: "+f, []string{f})
+				break
+			}
 		}
 	}
 	lines := []string{}
